@@ -89,25 +89,30 @@ def toksJson (cs : List GCh) : Json :=
 
 def runModel (j : Json) : Except String Json := do
   let init ← j.getObjVal? "init"
-  let (h0, parsed) ← match init.getObjVal? "parsed" with
-    | .ok g => do let g ← parseGT g; pure (parseInputNode g, some g)
-    | .error _ => do pure (← parseExpr (← init.getObjVal? "scratch"), none)
+  let (cg0, parsed) ← match init.getObjVal? "parsed" with
+    | .ok g => do let g ← parseGT g; pure (parseCell g, some g)
+    | .error _ => do pure ((⟨[], 0, ← parseExpr (← init.getObjVal? "scratch")⟩ : CG), none)
+  let h0 := cg0.hs
   let ctr ← getNat j "ctr"
   let ops ← (← j.getObjVal? "ops").getArr?
   let mut h := h0
+  let mut cg := cg0
   let mut c := ctr
   let mut steps : Array Json := #[]
   for op in ops do
     let k ← (← op.getObjVal? "k").getStr?
     if k == "write" then
-      let (txt, h', c') := writeGeometry c h
-      h := h'
+      let (txt, cg', c') := writeGeometry c (cg.set h)
+      cg := cg'
+      h := cg'.hs
       c := c'
       steps := steps.push (Json.mkObj [("str", h.str), ("text", textTo txt), ("toks", toksJson txt)])
     else
       if k == "not" then h := h.invert
       else
-        let x ← parseExpr (← op.getObjVal? "x")
+        let x ← match op.getObjVal? "xp" with
+          | .ok g => do pure (parseInputNode (← parseGT g))
+          | .error _ => parseExpr (← op.getObjVal? "x")
         h ← match k with
           | "and" => pure (h.and x) | "rand" => pure (x.and h) | "or" => pure (h.or x) | "ror" => pure (x.or h)
           | "iand" => pure (h.iand x) | "ior" => pure (h.ior x)
